@@ -1,19 +1,121 @@
+// bisqcheck: repository-specific static analyser for energomonitor/bisquitt.
+//
+// Every verdict is computed from the type-checked source / SSA of the repo's
+// current working tree. Nothing in here executes bisquitt code.
 package main
 
 import (
+	"flag"
 	"fmt"
-	"golang.org/x/tools/go/packages"
-	"golang.org/x/tools/go/ssa"
-	"golang.org/x/tools/go/ssa/ssautil"
+	"os"
+	"runtime/debug"
+	"sort"
+	"strconv"
+	"time"
 )
 
+type propCheck struct {
+	id   string
+	run  func(c *Ctx, r *Report)
+	init func(r *Report)
+	// post runs once after all configurations (e.g. compiler BCE pass)
+	post func(cs []*Ctx, r *Report, tier string)
+}
+
+var registry = map[string]*propCheck{}
+
+func register(id string, init func(r *Report), run func(c *Ctx, r *Report)) *propCheck {
+	p := &propCheck{id: id, run: run, init: init}
+	registry[id] = p
+	return p
+}
+
 func main() {
-	cfg := &packages.Config{Mode: packages.LoadAllSyntax, Dir: "/repo", Env: nil}
-	pkgs, err := packages.Load(cfg, "./...")
-	if err != nil {
-		panic(err)
+	prop := flag.String("property", "", "property id (C01..C34)")
+	tier := flag.String("tier", "quick", "quick|thorough")
+	repo := flag.String("repo", "/repo", "path of the bisquitt working tree")
+	verif := flag.String("verif", "/verif", "path of the verification directory (evidence, known findings)")
+	list := flag.Bool("list", false, "list implemented properties")
+	noSelf := flag.Bool("no-selftest", false, "thorough: skip mutant self-validation")
+	flag.Parse()
+	if *list {
+		var ids []string
+		for id := range registry {
+			ids = append(ids, id)
+		}
+		sort.Strings(ids)
+		for _, id := range ids {
+			fmt.Println(id)
+		}
+		return
 	}
-	prog, spkgs := ssautil.AllPackages(pkgs, ssa.InstantiateGenerics)
-	prog.Build()
-	fmt.Println(len(pkgs), len(spkgs))
+	if t := os.Getenv("VERIF_TIER"); t != "" && !isFlagSet("tier") {
+		*tier = t
+	}
+	seed := 0
+	if s := os.Getenv("VERIF_SEED"); s != "" {
+		seed, _ = strconv.Atoi(s)
+	}
+	pc, ok := registry[*prop]
+	if !ok {
+		fmt.Printf("unknown property %q\n", *prop)
+		os.Exit(2)
+	}
+	started := time.Now()
+	r := newReport(pc.id)
+	if pc.init != nil {
+		pc.init(r)
+	}
+	type cfg struct{ goos, goarch string }
+	cfgs := []cfg{{"", ""}}
+	if *tier == "thorough" {
+		cfgs = append(cfgs, cfg{"linux", "386"}, cfg{"windows", "amd64"})
+	}
+	var names []string
+	var ctxs []*Ctx
+	code := 0
+	func() {
+		defer func() {
+			if e := recover(); e != nil {
+				r.configActive = ""
+				r.undecided("R0", "analyser-panic", "-", fmt.Sprintf("analyser panicked: %v\n%s", e, debug.Stack()))
+			}
+		}()
+		for _, cf := range cfgs {
+			name := "linux/amd64"
+			if cf.goos != "" {
+				name = cf.goos + "/" + cf.goarch
+			}
+			names = append(names, name)
+			c, err := loadRepo(*repo, *tier, cf.goos, cf.goarch)
+			if err != nil {
+				r.configActive = name
+				r.undecided("R0", "load:"+name, "-", "cannot load/type-check the tree: "+err.Error())
+				continue
+			}
+			r.configActive = name
+			pc.run(c, r)
+			ctxs = append(ctxs, c)
+		}
+		r.configActive = ""
+		if pc.post != nil {
+			pc.post(ctxs, r, *tier)
+		}
+	}()
+	extra := map[string]interface{}{}
+	if *tier == "thorough" && !*noSelf {
+		selfValidate(pc.id, *repo, *verif, extra)
+	}
+	code = r.finish(*verif, *tier, seed, names, started, extra)
+	os.Exit(code)
+}
+
+func isFlagSet(name string) bool {
+	set := false
+	flag.Visit(func(f *flag.Flag) {
+		if f.Name == name {
+			set = true
+		}
+	})
+	return set
 }
